@@ -279,6 +279,13 @@ func runC02(c *Ctx) {
 		if r.P(0.15) {
 			pc = 0
 		}
+		if idx%500 == 7 {
+			// directed: a message that is a few kB on the wire thanks to name compression and 80-160 kB
+			// without it - "no size limit" means exactly that
+			m = c09HugeMsg(r)
+			g = &refmsg.NameGen{}
+			pc = 1
+		}
 		w, lay := refmsg.Encode(m, r, pc)
 		local := map[string]int64{"generated": 1}
 		if lay.Pointers > 0 {
